@@ -528,8 +528,8 @@ class Program:
             except Unevaluable:
                 pass
             if isinstance(fn, ExtRef):
-                if fn.dotted == "itertools.count" and not node.args:
-                    return CountIter()
+                if fn.dotted == "itertools.count" and len(node.args) <= 1 and not node.keywords:
+                    return CountIter(ev(mi, node.args[0], env) if node.args else 0)
             if isinstance(node.func, ast.Name) and node.func.id == "next" and len(node.args) == 1:
                 it = ev(mi, node.args[0], env)
                 if isinstance(it, CountIter):
